@@ -17,6 +17,16 @@ pub enum Item {
     /// the body of the first closure whose single parameter has the given name, inside a function or method, as a
     /// function of its own: (owner type or "", function, closure parameter, new name, parameters as Rust text, result type)
     ClosureBody(&'static str, &'static str, &'static str, &'static str, &'static str, &'static str),
+    /// the body of the first `for <var> in …` loop inside a function or method (at any depth), as a function of its own
+    /// (one iteration; the loop must not be left early): (owner type or "", function, loop variable, new name, parameters
+    /// as Rust text - `self` inside the body is renamed `this` -, result type, tail expression text, e.g. "Ok(())")
+    ForBody(&'static str, &'static str, &'static str, &'static str, &'static str, &'static str, &'static str),
+    /// a method translated under a replacement signature after textual rewrites of its body (token level; each
+    /// pattern must occur): the documented *reading* of constructs the subset does not have - a `Mutex`-protected vector
+    /// and an atomic counter read as plain `&mut` state (the sequential semantics while the lock is held), an
+    /// `unsafe` re-borrow read as the slice itself, verification hooks dropped:
+    /// (owner type, method, new name, parameters as Rust text, result type, [(pattern, replacement)])
+    MethodRewritten(&'static str, &'static str, &'static str, &'static str, &'static str, &'static [(&'static str, &'static str)]),
     /// a function translated under a replacement signature (for generic `R: Read` parameters that are byte slices
     /// in the model): (function, new name, parameters as Rust text, result type)
     FnWithSig(&'static str, &'static str, &'static str, &'static str),
@@ -36,6 +46,8 @@ pub enum Item {
     InlineGetter(&'static str, &'static str),
     /// `impl Deref for T` whose `deref` is `&self.<field>`: method calls that `T` does not answer go to that field
     Deref(&'static str),
+    /// a type of the crate read as another type in this unit (what is dropped is said in DESIGN 13): (name, Rust type)
+    Alias(&'static str, &'static str),
     /// a type name standing for some `R: Read` (modelled as the list of chunks its reads deliver)
     Reader(&'static str),
     /// a hand-written Lean definition emitted verbatim (a mirror of library / iterator plumbing): (what it mirrors, text)
@@ -51,12 +63,15 @@ impl Item {
             Item::Mirror(n, _) => format!("mirror:{}", n),
             Item::Reader(n) => format!("reader:{}", n),
             Item::Opaque(n) => format!("opaque:{}", n),
+            Item::Alias(n, _) => format!("alias:{}", n),
             Item::Deref(n) => format!("deref:{}", n),
             Item::ExternMethod(t, m, ..) => format!("extern:{}::{}", t, m),
             Item::InlineGetter(t, m) => format!("getter:{}::{}", t, m),
             Item::Extern(n, _) => format!("extern:{}", n),
             Item::FnWithSig(f, n, ..) => format!("{}[as {}]", f, n),
             Item::Enum(n) => n.to_string(),
+            Item::MethodRewritten(o, f, n, ..) => format!("{}::{}[rewritten]=>{}", o, f, n),
+            Item::ForBody(o, f, v, n, ..) => format!("{}::{}[for {}]=>{}", o, f, v, n),
             Item::ClosureBody(o, f, p, n, ..) => format!("{}::{}[closure |{}|]=>{}", o, f, p, n),
             Item::NestedFn(o, n) => format!("{}::{}", o, n),
             Item::Region(f, n, ..) => format!("{}[..first for]=>{}", f, n),
@@ -108,7 +123,9 @@ pub fn units() -> Vec<Unit> {
             file: "types.rs",
             fns: vec![
                 Item::Struct("RawToken", &["dst_line", "dst_col", "src_line", "src_col", "src_id", "name_id", "is_range"]),
-                Item::Struct("SourceMap", &["tokens", "names"]),
+                Item::Alias("SourceView", "String"),
+                Item::Alias("DebugId", "u64"),
+                Item::Struct("SourceMap", &["file", "tokens", "names", "source_root", "sources", "sources_prefixed", "sources_content", "ignore_list", "debug_id"]),
                 Item::Struct("Token", &["raw", "sm", "idx", "offset"]),
                 Item::Mirror(
                     "SourceMap::tokens() / TokenIter::next: yields get_token(0), get_token(1), … until None",
@@ -130,6 +147,15 @@ pub fn units() -> Vec<Unit> {
                 Item::Method("Token", "get_name_id"),
                 Item::Method("Token", "is_range"),
                 Item::Method("SourceMap", "lookup_token"),
+                Item::Method("SourceMap", "get_file"),
+                Item::Method("SourceMap", "get_source"),
+                Item::Method("SourceMap", "get_source_contents"),
+                Item::Method("SourceMap", "add_to_ignore_list"),
+                Item::Method("Token", "get_source"),
+                Item::Method("SourceMap", "new"),
+                Item::Method("SourceMap", "set_debug_id"),
+                Item::Method("SourceMap", "prefix_source"),
+                Item::Method("SourceMap", "set_source_root"),
             ],
             imports: vec!["RsUtils"],
         },
@@ -172,6 +198,30 @@ pub fn units() -> Vec<Unit> {
             imports: vec![],
         },
         Unit {
+            module: "RsGetLine",
+            file: "sourceview.rs",
+            fns: vec![Item::MethodRewritten(
+                "SourceView",
+                "get_line",
+                "get_line_seq",
+                "source: &str, lines: &mut Vec<&str>, processed_until: &mut usize, idx: u32",
+                "Option<&str>",
+                &[
+                    ("let lines = self.lines.lock().unwrap();", ""),
+                    ("let mut lines = self.lines.lock().unwrap();", ""),
+                    ("self.lines.lock().unwrap()", "lines"),
+                    ("self.processed_until.load(Ordering::Relaxed)", "*processed_until"),
+                    ("self.processed_until.fetch_add(idx + 1, Ordering::Relaxed);", "*processed_until += idx + 1;"),
+                    ("self.processed_until.fetch_add(rest.len() + 1, Ordering::Relaxed);", "*processed_until += rest.len() + 1;"),
+                    ("self.source", "source"),
+                    ("#[cfg(sourcemap_verif)] crate::verif_hooks::yield_point(1);", ""),
+                    ("#[cfg(sourcemap_verif)] crate::verif_hooks::yield_point(2);", ""),
+                    ("unsafe { str::from_utf8_unchecked(slice::from_raw_parts(rv.as_ptr(), rv.len())) }", "rv"),
+                ],
+            )],
+            imports: vec![],
+        },
+        Unit {
             module: "RsReader",
             file: "decoder.rs",
             fns: vec![
@@ -208,7 +258,15 @@ pub fn units() -> Vec<Unit> {
             module: "RsBuilder",
             file: "builder.rs",
             fns: vec![
-                Item::Struct("SourceMapBuilder", &["name_map", "names", "tokens", "source_map", "sources", "source_contents", "sources_mapping"]),
+                Item::Alias("DebugId", "u64"),
+                Item::Struct("SourceMapBuilder", &["file", "name_map", "names", "tokens", "source_map", "source_root", "sources", "source_contents", "sources_mapping", "ignore_list", "debug_id"]),
+                Item::Method("SourceMapBuilder", "new"),
+                Item::Method("SourceMapBuilder", "set_debug_id"),
+                Item::Method("SourceMapBuilder", "set_file"),
+                Item::Method("SourceMapBuilder", "get_file"),
+                Item::Method("SourceMapBuilder", "set_source_root"),
+                Item::Method("SourceMapBuilder", "get_source_root"),
+                Item::Method("SourceMapBuilder", "add_to_ignore_list"),
                 Item::Method("SourceMapBuilder", "add_source_with_id"),
                 Item::Method("SourceMapBuilder", "add_source"),
                 Item::Method("SourceMapBuilder", "get_source"),
@@ -221,6 +279,9 @@ pub fn units() -> Vec<Unit> {
                 Item::Method("SourceMapBuilder", "add"),
                 Item::Method("SourceMapBuilder", "add_raw"),
                 Item::Method("SourceMapBuilder", "take_mapping"),
+                Item::Method("SourceMapBuilder", "add_token"),
+                Item::Method("SourceMapBuilder", "strip_prefixes"),
+                Item::Method("SourceMapBuilder", "into_sourcemap"),
             ],
             imports: vec!["RsUtils", "RsTypes"],
         },
@@ -264,6 +325,37 @@ pub fn units() -> Vec<Unit> {
             imports: vec!["RsUtils", "RsTypes", "RsHermes"],
         },
         Unit {
+            module: "RsFlatten",
+            file: "types.rs",
+            fns: vec![Item::ForBody(
+                "SourceMapIndex",
+                "flatten",
+                "token",
+                "flatten_token",
+                "builder: &mut SourceMapBuilder, map: &SourceMap, token: Token, off_line: u32, off_col: u32",
+                "Result<()>",
+                "Ok(())",
+            )],
+            imports: vec!["RsUtils", "RsTypes", "RsBuilder"],
+        },
+        Unit {
+            module: "RsRewrite",
+            file: "types.rs",
+            fns: vec![
+                Item::Struct("RewriteOptions", &["with_names", "with_source_contents", "strip_prefixes"]),
+                Item::ForBody(
+                    "SourceMap",
+                    "rewrite_with_mapping",
+                    "token",
+                    "rewrite_token",
+                    "this: &SourceMap, builder: &mut SourceMapBuilder, token: Token, options: &RewriteOptions",
+                    "()",
+                    "",
+                ),
+            ],
+            imports: vec!["RsUtils", "RsTypes", "RsBuilder"],
+        },
+        Unit {
             module: "RsDetector",
             file: "detector.rs",
             fns: vec![
@@ -275,8 +367,21 @@ pub fn units() -> Vec<Unit> {
         Unit {
             module: "RsJsonTypes",
             file: "jsontypes.rs",
-            fns: vec![Item::Struct("MinimalRawSourceMap", &["version", "file", "sources", "source_root", "sources_content", "sections", "names", "mappings"])],
+            fns: vec![Item::Struct("FacebookScopeMapping", &["names", "mappings"]), Item::Struct("MinimalRawSourceMap", &["version", "file", "sources", "source_root", "sources_content", "sections", "names", "mappings"])],
             imports: vec![],
+        },
+        Unit {
+            module: "RsHermesDecode",
+            file: "hermes.rs",
+            fns: vec![Item::ClosureBody(
+                "",
+                "decode_hermes",
+                "v",
+                "decode_function_map",
+                "v: &Option<Vec<FacebookScopeMapping>>, mut nums: Vec<i64>",
+                "Option<HermesFunctionMap>",
+            )],
+            imports: vec!["RsVlq", "RsTypes", "RsHermes", "RsJsonTypes"],
         },
         Unit {
             module: "RsDetectCommon",
